@@ -64,7 +64,7 @@ def run(ctx, progs):
         b = find_impl(prog, RV, r"&\[u8\]", "read_volatile")
         if b:
             n += 1
-            total = C("Ord::min", C("VolatileSlice::len", P(2)), C("slice::len", P(1)))
+            total = C("cmp::min", C("VolatileSlice::len", P(2)), C("slice::len", P(1)))
             copy = C("copy_to_volatile_slice", P(2), C("slice::as_ptr", P(1)), total)
             oks = single_ok_payload(b)
             # the helper returns its `total` argument (C04 R4.2), so either denotes the transferred count
@@ -92,7 +92,7 @@ def run(ctx, progs):
         b = find_impl(prog, WV, r"&mut \[u8\]", "write_volatile")
         if b:
             n += 1
-            total = C("Ord::min", C("VolatileSlice::len", P(2)), C("slice::len", P(1)))
+            total = C("cmp::min", C("VolatileSlice::len", P(2)), C("slice::len", P(1)))
             copy = C("copy_from_volatile_slice", C("slice::as_mut_ptr", P(1)), P(2), total)
             oks = single_ok_payload(b)
             moved = ALT(copy, total)
@@ -156,7 +156,7 @@ def run(ctx, progs):
             if ok:
                 dt = deep_strip(b.call_term(dc[0].t, dc[0].pos, 0))
                 e = {}
-                clamp = C("Ord::min", C("Cursor::position", P(1)), C("slice::len", ANY))
+                clamp = C("cmp::min", C("Cursor::position", P(1)), C("slice::len", ANY))
                 inner_ok = match(C(inner_call, C(getter, ANY, AGG("RangeFrom", None, clamp)), P(2)), dt, e)
                 spt = deep_strip(b.call_term(sp[0].t, sp[0].pos, 0))
                 e2 = {}
